@@ -8,7 +8,9 @@ import (
 	"sync"
 	"sync/atomic"
 
+	"github.com/NethermindEth/juno/core/crypto"
 	"github.com/NethermindEth/juno/core/felt"
+	"github.com/NethermindEth/juno/core/trie"
 	"verif/harness/lib"
 )
 
@@ -34,23 +36,82 @@ func (c *ctx) rpcRaceSection(r *lib.RNG) {
 			bundles = append(bundles, b)
 		}
 		byHash := map[felt.Felt]*lib.Bundle{}
+		byRoot := map[felt.Felt]*lib.Bundle{}
 		for _, b := range bundles {
 			byHash[*b.Block.Hash] = b
+			byRoot[*b.Block.GlobalStateRoot] = b
 		}
 		dst, _ := lib.NewNode(g.Net, newState)
 		if err := lib.StoreOn(dst, bundles[0]); err != nil {
 			res.Fatalf("rpc-race: store: %v", err)
 			return
 		}
+		// the cause, without any concurrency: a head state opened at block p and READ AFTER block p+1
+		// is stored (p: the first block whose successor changes the state root). "HeadState returns a
+		// StateReader that provides a stable view to the latest state" (blockchain.go): the roots it
+		// gives must still be those of block p.
+		p := 0
+		for p+2 < blocks && bundles[p].Block.GlobalStateRoot.Equal(bundles[p+1].Block.GlobalStateRoot) {
+			p++
+			if err := lib.StoreOn(dst, bundles[p]); err != nil {
+				res.Fatalf("rpc-race: store: %v", err)
+				return
+			}
+		}
+		if view, closer, err := dst.HeadState(); err != nil {
+			res.Fatalf("rpc-race: HeadState: %v", err)
+			return
+		} else {
+			if err := lib.StoreOn(dst, bundles[p+1]); err != nil {
+				res.Fatalf("rpc-race: store: %v", err)
+				return
+			}
+			var cr, kr felt.Felt
+			err, panicked, _ := lib.Try(func() error {
+				ct, e := view.ContractTrie()
+				if e != nil {
+					return e
+				}
+				kt, e := view.ClassTrie()
+				if e != nil {
+					return e
+				}
+				if cr, e = ct.Hash(); e != nil {
+					return e
+				}
+				kr, e = kt.Hash()
+				return e
+			})
+			_ = closer()
+			res.Case(fmt.Sprintf("rpc-race/stable-view/%v/%d", newState, seed), true)
+			switch got := globalRoot(&cr, &kr, bundles[p].Block.ProtocolVersion); {
+			case err != nil || panicked:
+				res.Hit(fmt.Sprintf("rpc-race:head-state-opened-before-a-store:unreadable-after:new-state=%v", newState))
+			case bundles[p].Block.GlobalStateRoot.Equal(bundles[p+1].Block.GlobalStateRoot):
+				res.Fatalf("rpc-race: no two consecutive blocks of the generated chain differ in the state root: the stable-view probe says nothing")
+			case got.Equal(bundles[p].Block.GlobalStateRoot):
+				res.Hit(fmt.Sprintf("rpc-race:head-state-opened-before-a-store:still-the-old-block:new-state=%v", newState))
+			default:
+				shape := "roots-of-no-block"
+				if got.Equal(bundles[p+1].Block.GlobalStateRoot) {
+					shape = "roots-of-the-new-block"
+				}
+				res.Hit(fmt.Sprintf("rpc-race:head-state-opened-before-a-store:%s:new-state=%v", shape, newState))
+				res.Violate(lib.Violation{Sig: fmt.Sprintf("head-state-view-changes-when-a-block-is-stored:new-state=%v", newState),
+					What: fmt.Sprintf("a StateReader returned by HeadState() at block N gives, after block N+1 has been stored, the tries of another state (%s): "+
+						"it is not the stable view its doc comment promises, so a storage proof built from it can belong to a later block than the one it is served for", shape),
+					Replay: map[string]any{"section": "rpc-race", "new_state_backend": newState, "chain_seed": seed}})
+			}
+		}
 		hs := newRPCHandlers(dst)
 		var stop atomic.Bool
 		var wg sync.WaitGroup
-		var answered, mixed atomic.Int64
+		var answered, mixed, torn atomic.Int64
 		contracts := []felt.Felt{g.Addr(4), g.Addr(5)}
 		reader := func(version string) {
 			defer wg.Done()
 			for !stop.Load() {
-				raw, _, rpcErr, err := callStorageProof(version, hs, blockRef{Kind: "latest"}, nil, contracts, nil)
+				raw, sets, rpcErr, err := callStorageProof(version, hs, blockRef{Kind: "latest"}, nil, contracts, nil)
 				if err != nil {
 					res.Violate(lib.Violation{Sig: "rpc-" + version + ":storage-proof-panics-while-a-block-is-stored", What: "StorageProof panics under a concurrent Store: " + err.Error()})
 					return
@@ -70,11 +131,35 @@ func (c *ctx) rpcRaceSection(r *lib.RNG) {
 					continue
 				}
 				cr, kr := hexFelt(unhex(resp.GlobalRoots.ContractsTreeRoot)), hexFelt(unhex(resp.GlobalRoots.ClassesTreeRoot))
+				// the proofs must at least belong to the roots they come with (nodes of ONE state)
+				for i := range contracts {
+					var verr error
+					_, panicked, _ := lib.Try(func() error {
+						_, verr = trie.VerifyProof(&cr, &contracts[i], sets.contracts, crypto.Pedersen)
+						return nil
+					})
+					if panicked || verr != nil {
+						torn.Add(1)
+						res.Violate(lib.Violation{Sig: "rpc-" + version + ":contracts-proof-does-not-verify-against-its-own-contracts-root",
+							What: fmt.Sprintf("under a concurrent Store the contracts_proof of the response does not verify against the response's own contracts_tree_root (%v): nodes of two states", verr),
+							Replay: map[string]any{"section": "rpc-race", "rpc_version": version, "new_state_backend": newState, "chain_seed": seed,
+								"named_block": blk.Block.Number, "response": json.RawMessage(raw)}})
+						break
+					}
+				}
 				if got := globalRoot(&cr, &kr, blk.Block.ProtocolVersion); !got.Equal(blk.Block.GlobalStateRoot) {
+					// which block do the roots belong to? another block of the chain (the state of
+					// one block served under the hash of another), or none (a torn read: the
+					// "stable view" changed while the proofs were built)
+					shape, other := "roots-of-no-block", "no block of the chain"
+					if o, ok := byRoot[got]; ok {
+						shape, other = "roots-and-block-hash-of-different-blocks", fmt.Sprintf("block %d", o.Block.Number)
+					}
 					mixed.Add(1)
-					res.Violate(lib.Violation{Sig: "rpc-" + version + ":roots-and-block-hash-of-different-blocks",
-						What: fmt.Sprintf("under a concurrent Store the response names block %d (block_hash) but its roots give %s, not that block's state root %s: "+
-							"the state and the height are read in separate transactions", blk.Block.Number, got.String(), blk.Block.GlobalStateRoot.String()),
+					res.Hit(fmt.Sprintf("rpc-race:%s:new-state=%v", shape, newState))
+					res.Violate(lib.Violation{Sig: "rpc-" + version + ":" + shape,
+						What: fmt.Sprintf("under a concurrent Store the response names block %d (block_hash) but its roots give %s, the state root of %s, not that block's state root %s",
+							blk.Block.Number, got.String(), other, blk.Block.GlobalStateRoot.String()),
 						Replay: map[string]any{"section": "rpc-race", "rpc_version": version, "new_state_backend": newState, "chain_seed": seed,
 							"named_block": blk.Block.Number, "response": json.RawMessage(raw)}})
 				}
@@ -86,7 +171,7 @@ func (c *ctx) rpcRaceSection(r *lib.RNG) {
 				go reader(v)
 			}
 		}
-		for i := 1; i < blocks; i++ {
+		for i := p + 2; i < blocks; i++ {
 			if err := lib.StoreOn(dst, bundles[i]); err != nil {
 				res.Fatalf("rpc-race: store block %d: %v", i, err)
 				break
@@ -97,5 +182,6 @@ func (c *ctx) rpcRaceSection(r *lib.RNG) {
 		res.Case(fmt.Sprintf("rpc-race/%v/%d", newState, seed), true)
 		res.HitN(fmt.Sprintf("rpc-race:responses-during-stores:new-state=%v", newState), int(answered.Load()))
 		res.HitN(fmt.Sprintf("rpc-race:responses-mixing-two-blocks:new-state=%v", newState), int(mixed.Load()))
+		res.HitN(fmt.Sprintf("rpc-race:responses-with-a-proof-of-mixed-nodes:new-state=%v", newState), int(torn.Load()))
 	}
 }
